@@ -24,7 +24,11 @@ View == <<cfg, n, tk, sd, sdw>>
 Shapes == {[ids |-> 1, max |-> MaxTasks], [ids |-> Cardinality(Ids), max |-> MaxTasks - 1]}
 \* pf = Shutdown is additionally given PanicOnModificationsAfterShutdown: a later ExecuteAt panics instead of returning nil - and
 \* nothing else changes (what was pending still runs or is dropped as the other flags say, the shutdown still completes)
-Cfgs == {[workers |-> w, ids |-> sh.ids, max |-> sh.max, pf |-> f] : w \in WorkerCounts, sh \in Shapes, f \in BOOLEAN}
+\* mq = WithMaxQueueSize (0 = unbounded).  The histories of a bounded executor stay inside the bound (the model never lets the queue
+\* exceed it, so nothing is ever dropped by the bound): what is checked is that a task which REPLACES the pending task of its
+\* identifier does not count twice - the replaced task is gone before the new one is queued.
+Cfgs == {[workers |-> w, ids |-> sh.ids, max |-> sh.max, pf |-> f, mq |-> q] : w \in WorkerCounts, sh \in Shapes, f \in BOOLEAN, q \in {0, 1}}
+          \ {c \in [workers : WorkerCounts, ids : 1..Cardinality(Ids), max : 1..MaxTasks, pf : BOOLEAN, mq : {0, 1}] : c.pf /\ c.mq # 0}
 Tasks == 1..MaxTasks
 NoTask == <<0, 0, "none">>      \* <<identifier, time, state>> (tuples, not records: ToString(View) must be canonical)
 SSeq(S) == SetToSortSeq(S, <)
@@ -69,7 +73,8 @@ Do(s0) ==
                    /\ Finish(s, tk, sd, IF cfg.pf THEN "panic" ELSE "refused")
               ELSE LET T0 == [k \in Tasks |-> IF k \in Pending(tk, s.id) THEN [tk[k] EXCEPT ![3] = "out"]       \* replaces the pending task
                                               ELSE IF k = n + 1 THEN <<s.id, s.t, "heap">> ELSE tk[k]]
-                   IN Finish(s, T0, sd, "ok")
+                   IN /\ (cfg.mq = 0 \/ Cardinality(In(T0, "heap")) <= cfg.mq)
+                      /\ Finish(s, T0, sd, "ok")
     [] s.op = "Cancel" ->      \* Cancel(id): true exactly when a pending task was prevented from running
          /\ UNCHANGED <<cfg, n>> /\ sd = "no" /\ s.id <= cfg.ids
          /\ LET P == Pending(tk, s.id) IN
